@@ -644,6 +644,9 @@ def replay(ctx, payload):
     case = payload["case"]
     case.setdefault("perm", None)
     case.setdefault("layout", None)
+    for k in ("fcst", "obs", "weight"):                  # the recorded payload spells NaN as the string "nan"
+        if case.get(k) is not None:
+            case[k] = [float(x) for x in case[k]]
     for k in ("bootstraps",):
         case.setdefault(k, None)
     spec = None
